@@ -540,6 +540,11 @@ class _BBRepr(Repr):
             return ret
         return _BUILTIN_ID_NAME_MAP.get(id(x), ret)
 
+    def repr_slice(self, x, level):
+        # (reprlib leaves slices to repr(): a builtin inside would not get its name)
+        return 'slice(%s)' % ', '.join([self.repr1(v, level - 1)
+                                        for v in (x.start, x.stop, x.step)])
+
 
 _bbrepr = recursive_repr()(_BBRepr().repr)
 
